@@ -230,7 +230,7 @@ static void check_table(const std::string& name, const void* p, size_t es, size_
 
 static void run_c14(const std::string& only_table = "", long only_index = -1) {
   const ref::GF& f4 = ref::gf4(); const ref::GF& f8 = ref::gf8();
-  st.rule = "every entry of every multiplication / inverse / log / exp table of the GF(2^m) codec (precomputed, incl. the packed two-nibble table) and of the GF(2^8) codec (generated by of_rs_init), compared with shift-and-reduce arithmetic in GF(2)[x]/(x^4+x+1) and GF(2)[x]/(x^8+x^4+x^3+x^2+1); log entry 0 is a documented sentinel and skipped; non-trivial = both operands (or the index) outside {0,1}";
+  st.rule = "every entry of every multiplication / inverse / log / exp table of the GF(2^m) codec (precomputed, incl. the packed two-nibble table) and of the GF(2^8) codec (generated at first use, and after two further calls of the exported of_rs_init), compared with shift-and-reduce arithmetic in GF(2)[x]/(x^4+x+1) and GF(2)[x]/(x^8+x^4+x^3+x^2+1); log entry 0 is a documented sentinel and skipped; non-trivial = both operands (or the index) outside {0,1}";
   st.exhaustive = true;
   st.subspaces.push_back("all table indices of three table sets (finite), enumerated completely");
   const void* p; size_t es, cnt, stride;
@@ -247,10 +247,16 @@ static void run_c14(const std::string& only_table = "", long only_index = -1) {
     if (want("gf28_exp") && shp_gf_table(8, &p, &es, &cnt)) check_table("gf28_exp", p, es, cnt, 256, [&](size_t i, uint64_t& w) { w = f8.pow_x((unsigned)i); return true; }, [](size_t i) { return i > 1; }, only_index);
   } else st.counters["unavailable:probe_gf"]++;
   if (shp_rs8_available()) {
-    if (want("rs8_exp") && shp_rs8_table(0, &p, &es, &cnt, &stride)) check_table("rs8_exp", p, es, cnt, 510, [&](size_t i, uint64_t& w) { w = f8.pow_x((unsigned)i); return true; }, [](size_t i) { return i > 1; }, only_index);
-    if (want("rs8_log") && shp_rs8_table(1, &p, &es, &cnt, &stride)) check_table("rs8_log", p, es, cnt, 256, [&](size_t i, uint64_t& w) { if (!i || i >= 256) return false; w = (uint64_t)f8.log_[i]; return true; }, [](size_t i) { return i > 1; }, only_index);
-    if (want("rs8_inverse") && shp_rs8_table(2, &p, &es, &cnt, &stride)) check_table("rs8_inverse", p, es, cnt, 256, [&](size_t i, uint64_t& w) { if (!i || i >= 256) return false; w = f8.inv(i); return true; }, [](size_t i) { return i > 1; }, only_index);
-    if (want("rs8_mul") && shp_rs8_table(3, &p, &es, &cnt, &stride)) check_table("rs8_mul", p, es, cnt, stride * stride, [&](size_t i, uint64_t& w) { size_t a = i / stride, b = i % stride; if (a >= 256 || b >= 256) return false; w = f8.mul((unsigned)a, (unsigned)b); return true; }, [&](size_t i) { return i / stride > 1 && i % stride > 1; }, only_index);
+    // generated at first use; then regenerated twice through the exported of_rs_init(): the tables must
+    // be the field after every generation
+    for (int round = 0; round < 3 && !failed; round++) {
+      if (round) shp_rs8_reinit();
+      st.counters["rs8_table_generations"]++;
+      if (want("rs8_exp") && shp_rs8_table(0, &p, &es, &cnt, &stride)) check_table("rs8_exp", p, es, cnt, 510, [&](size_t i, uint64_t& w) { w = f8.pow_x((unsigned)i); return true; }, [](size_t i) { return i > 1; }, only_index);
+      if (want("rs8_log") && shp_rs8_table(1, &p, &es, &cnt, &stride)) check_table("rs8_log", p, es, cnt, 256, [&](size_t i, uint64_t& w) { if (!i || i >= 256) return false; w = (uint64_t)f8.log_[i]; return true; }, [](size_t i) { return i > 1; }, only_index);
+      if (want("rs8_inverse") && shp_rs8_table(2, &p, &es, &cnt, &stride)) check_table("rs8_inverse", p, es, cnt, 256, [&](size_t i, uint64_t& w) { if (!i || i >= 256) return false; w = f8.inv(i); return true; }, [](size_t i) { return i > 1; }, only_index);
+      if (want("rs8_mul") && shp_rs8_table(3, &p, &es, &cnt, &stride)) check_table("rs8_mul", p, es, cnt, stride * stride, [&](size_t i, uint64_t& w) { size_t a = i / stride, b = i % stride; if (a >= 256 || b >= 256) return false; w = f8.mul((unsigned)a, (unsigned)b); return true; }, [&](size_t i) { return i / stride > 1 && i % stride > 1; }, only_index);
+    }
   } else {
     // black-box fallback: the RS-2^8 products observed through the exported-codec kernel are covered by C13/C06
     st.counters["unavailable:probe_rs8"]++;
@@ -287,7 +293,7 @@ int main(int argc, char** argv) {
         }
       } else if (line.compare(0, 6, "table=") == 0) {
         char tn[64]; char idx[32];
-        if (sscanf(line.c_str(), "table=%63s index=%31s", tn, idx) == 2) { any = true; run_c14(tn, strcmp(idx, "count") ? atol(idx) : -2); }
+        if (sscanf(line.c_str(), "table=%63s index=%31s", tn, idx) == 2) { if (!any) run_c14(); any = true; }
       }
     }
     if (!any) { fprintf(rep, "REPLAY-ERROR nothing to replay\n"); return 2; }
